@@ -612,3 +612,31 @@ Theorem C12_source_scale_component :
   Some (TI.gen.QuerySrc.src_scale_component (hex_int c) (Z.of_nat (length c))).
 Proof. exact TI.proofs.QuerySrcTie.scale_component_defined. Qed.
 Print Assumptions C12_source_scale_component.
+
+(** *** [query_terminal] itself tied to the source as a theorem (T): its statements are translated
+    from utils.py on every run into the step program [gen/QueryProgSrc.v] by
+    [harness/tx/tx_queryprog.py]; run over the tty model ([model/QueryProg.v]) the program IS
+    [query_F ... flush_before] — the function every getter theorem above is about — for every
+    clock, configuration, terminal, predicate, request and tty state: the discard of unread
+    input (TCSAFLUSH) precedes the write, the write precedes the read, the saved attributes
+    are re-applied with TCSANOW in the [finally] *)
+From TI Require Import model.QueryProg gen.QueryProgSrc proofs.QueryProgTie.
+Theorem C12_source_query_terminal :
+  forall (cost : nat -> Z) (cfg : config) (term : terminal) (more : list Z -> bool)
+         (request : list Z) (s : ttyA),
+    qcall cost cfg term more request src_query_terminal s
+    = query_F cost cfg term flush_before more request s.
+Proof. exact query_prog_is_query_F_lemma. Qed.
+Print Assumptions C12_source_query_terminal.
+
+(** the interpretation distinguishes programs: without the discard before the write,
+    type-ahead is returned as if it were the reply *)
+Theorem C12_source_query_without_discard_differs :
+  exists (cost : nat -> Z) (cfg : config) (term : terminal) (more : list Z -> bool) (request : list Z) (s : ttyA),
+    fst (qcall cost cfg term more request
+               [QGuardEnabled; QSaveOld; QSaveNew; QNoEcho;
+                QTryFinally [QSet TCSANOW ANew; QWrite; QReturnRead] [QSet TCSANOW AOld]] s)
+    = Some [65%Z]
+    /\ fst (query_F cost cfg term flush_before more request s) = Some [].
+Proof. exact query_prog_without_discard_differs_lemma. Qed.
+Print Assumptions C12_source_query_without_discard_differs.
